@@ -74,7 +74,7 @@ static int mb_ass_slice(MiniBufferObj *self,
     if (left > right) left = right;
 
     count = right - left;
-    if (count != src_view.len) {
+    if (src_view.len >= 0 && count != src_view.len) {
         PyBuffer_Release(&src_view);
         PyErr_SetString(PyExc_ValueError,
                         "right operand length must match slice length");
